@@ -981,6 +981,8 @@ def run(R):
                           "fewer than 2^63 list entries (int_fast64_t run length cannot overflow)",
                           "frame numbers below 2^(64-page_shift) where byte addresses are formed",
                           "qsort sorts; realloc/pread behave as specified",
+                          "opens with a failing realloc: which index array a realloc call of kdump_open_fd grows is learnt from a fault-free open of the same "
+                          "file (harness/alloc.h realloc hook; the open is deterministic); realloc calls outside the two indexes have no model twin",
                           "histories: whether addrxlat_sys_os_init succeeds with the options at hand is a parameter of the model (given by the "
                           "generator for each step: the listed option changes succeed on the generated x86_64 / s390x domain dumps, a missing or "
                           "13-bit paging mode and an unknown architecture name fail); the address translation of libaddrxlat itself is C08/C09's subject",
